@@ -634,7 +634,17 @@ func (o *opsGen) stepRec(f *family, stepNo int, mateProb float64, mutWeights []i
 			a, e1 := genetics.VDuplicate(g, g.Id)
 			b, e2 := genetics.VDuplicate(g2, g2.Id)
 			if e1 == nil && e2 == nil {
-				if r.Intn(2) == 0 {
+				if v := r.Intn(3); v == 2 {
+					// trait parameters of either sign (the readers accept any number; only Trait.Mutate clamps)
+					ps := []float64{-1.5, -0.25, 0, 0.5, 2, -1e-300, -3e300}
+					for _, g := range []*genetics.Genome{a, b} {
+						for _, t := range g.Traits {
+							for j := range t.Params {
+								t.Params[j] = ps[r.Intn(len(ps))]
+							}
+						}
+					}
+				} else if v == 0 {
 					for _, x := range a.Genes {
 						x.IsEnabled = false
 					}
